@@ -175,6 +175,8 @@
 (declare-fun sc.of (github.com/decred/dcrd/dcrec/secp256k1/v4.ModNScalar) Sc)
 (declare-fun sc.ser (Sc) Bytes)
 (declare-fun sc.frombytes (Bytes) Sc)
+; a scalar's serialisation is canonical (32 bytes, below the group order): parsing it gives the scalar back
+(assert (forall ((x Sc)) (! (and (= (sc.frombytes (sc.ser x)) x) (= (blen (sc.ser x)) 32)) :pattern ((sc.ser x)))))
 (assert (forall ((p Pt)) (! (and (= (blen (pt.ser p)) 33) (pt.parseok (pt.ser p)) (= (pt.parse (pt.ser p)) p)) :pattern ((pt.ser p)))))
 (assert (forall ((j github.com/decred/dcrd/dcrec/secp256k1/v4.JacobianPoint)) (! (=> (jp.affine j) (= (affine.pt (github.com/decred/dcrd/dcrec/secp256k1/v4.JacobianPoint.X j) (github.com/decred/dcrd/dcrec/secp256k1/v4.JacobianPoint.Y j)) (jp.pt j))) :pattern ((jp.affine j)))))
 ; hash to curve, NUT-00: sha256(DS || msg), then sha256(h || le32(c)) for
